@@ -413,4 +413,30 @@ example : InputsOK exEnv (init exEnv 1 5) exInputs := by
   simp only [InputsOK, InputOK, exInputs]
   decide
 
+/-! ### F6 — the give-up path of the range fetch -/
+
+/-- without a give-up the loop is the one the theorems above are about -/
+theorem runG_eq_run (env : Env) : ∀ (inps : List (Input × Bool)) (s : DState), (∀ i ∈ inps, i.2 = false) →
+    runG env s inps = run env s (inps.map (·.1)) := by
+  intro inps
+  induction inps with
+  | nil => intro s _; rfl
+  | cons i rest ih =>
+    intro s h
+    have hi : i.2 = false := h i (by simp)
+    simp only [runG, run, List.foldl_cons, List.map_cons]
+    have : stepG env s i = stepD env s i.1 := by unfold stepG; rw [hi]; rfl
+    rw [this]
+    exact ih _ (fun j hj => h j (List.mem_cons_of_mem _ hj))
+
+/-- **F6 on the model — with a give-up the full statement is FALSE**: block 3 carries watched logs, the first range [1, 11]
+    lies below the finalized block; the fetch gives up, the loop hands over the marker 11 and moves on to 12: block 3 is never
+    handed over although the loop's position is far beyond it. -/
+theorem C05_giveup_false :
+    let env : Env := { chain := fun b => if b = 3 then [31] else if b = 15 then [151] else [], chunk := 10, finalizedTag := true }
+    let s := runG env (init env 1 20) [(⟨20, 20, true⟩, true), (⟨20, 20, true⟩, false)]
+    s.out.map (·.num) = [11, 15, 20] ∧ s.from_ = 21 ∧ env.chain 3 ≠ [] := by
+  decide
+
+
 end Aggkit.Downloader
